@@ -388,15 +388,18 @@ func (e c12Engine) Run(scAny any, keep bool) (out core.Outcome) {
 			_ = os.WriteFile(p, []byte(content), 0644)
 		}
 	}
-	_ = os.MkdirAll(filepath.Join(fs.Dir, "w", "sub"), 0755)
-	if sc.CustomOpen {
-		_ = os.MkdirAll(fs.Path("adir"), 0755)
-	} else {
-		_ = os.MkdirAll(realName("adir"), 0755)
+	initWorld := func() {
+		_ = os.MkdirAll(filepath.Join(fs.Dir, "w", "sub"), 0755)
+		if sc.CustomOpen {
+			_ = os.MkdirAll(fs.Path("adir"), 0755)
+		} else {
+			_ = os.MkdirAll(realName("adir"), 0755)
+		}
+		put("in1", "i1a\ni1b\n")
+		put("in2", "i2a\n")
+		put("out2", "old\n")
 	}
-	put("in1", "i1a\ni1b\n")
-	put("in2", "i2a\n")
-	put("out2", "old\n")
+	initWorld()
 	nameOf := func(t string) string {
 		switch t {
 		case "cw":
@@ -496,6 +499,13 @@ func (e c12Engine) Run(scAny any, keep bool) (out core.Outcome) {
 				wr = guarded(func() (int, error) { return it.Execute(&warm) })
 			}
 			wfs.Remove()
+			if !sc.CustomOpen {
+				// without a custom OpenFile the program's absolute names lead the warm-up run into
+				// the very same directory: what it wrote or truncated there is undone, the measured
+				// run starts from the initial world
+				_ = os.RemoveAll(filepath.Join(fs.Dir, "w"))
+				initWorld()
+			}
 			warmPanic = wr.Panic
 			if !sc.WarmNoReset {
 				it.ResetVars()
